@@ -102,6 +102,14 @@ func genC19(ctx *hx.Ctx, emit func(hx.Case)) {
 	for _, v := range c01Values {
 		vals = append(vals, markerize(v, &n))
 	}
+	for i, c := range c01DiscCases() {
+		if !ctx.Thorough() && i%2 == 1 {
+			continue
+		}
+		k := 0
+		c["value"] = markerize(c["value"], &k)
+		emit(withOracle(c))
+	}
 	for _, s := range c01Schemas(ctx) {
 		for _, v := range vals {
 			emit(withOracle(hx.Case{"schema": s, "value": v}))
@@ -166,7 +174,7 @@ func topReasons(err error) []any {
 
 func runC19(c hx.Case) any {
 	openapi3.SchemaErrorDetailsDisabled = false // the default: reasons are computed while details are enabled
-	s, err := parseSchema(c["schema"])
+	s, err := caseSchema(c)
 	if err != nil {
 		return map[string]any{"kind": "schema-unmarshal-error", "err": err.Error()}
 	}
